@@ -377,6 +377,7 @@ fn clock(threads: usize, readings: usize) {
             (Duration::from_nanos(1), 20),
             (Duration::from_micros(1), 50),
             (Duration::from_millis(1), 20),
+            (Duration::from_millis(5), 10),
             (Duration::from_millis(20), 5),
             (Duration::new(0, 999_999), 5),
         ] {
